@@ -516,6 +516,7 @@ Fixpoint ep_check (t : ep) : result unit :=
 Definition index_limit (c : ctx) (s : select) : select :=
   if Z.eqb (limit c) 0 then s else set_limit (IntV (limit c)) s.
 
+(* both reads of tempo_traces carry the window of the context since fix 87d7e49 *)
 Definition traces_data (c : ctx) (main : select) : select :=
   let table := if is_cluster c then traces_dist_table c else traces_table c in
   let trace_ids := Sel [] false [Id "trace_id"] (Some (WRef "index_grouped")) [] None None None [] [] None in
@@ -532,7 +533,9 @@ Definition traces_data (c : ctx) (main : select) : select :=
          Col (Fn FArgMin [Id "traces.service_name"; Id "traces.timestamp_ns"]) "_root_service_name";
          Col (Fn FArgMin [Id "traces.name"; Id "traces.timestamp_ns"]) "_root_trace_name"]
         (Some (Col (Id (traces_table c)) "traces")) [] None
-        (Some (LOp OAnd [InE (Id "traces.trace_id") [WRef "trace_ids"]])) None
+        (Some (LOp OAnd [InE (Id "traces.trace_id") [WRef "trace_ids"];
+                         LOp OGe [Id "traces.timestamp_ns"; IntV (from_ns c)];
+                         LOp OLt [Id "traces.timestamp_ns"; IntV (to_ns c)]])) None
         [Id "traces.trace_id"] [] None in
   set_with [("index_grouped", main); ("trace_ids", trace_ids); ("trace_span_ids", trace_span_ids); ("traces_info", traces_info)]
     (Sel [] false
@@ -548,7 +551,9 @@ Definition traces_data (c : ctx) (main : select) : select :=
          [(JAnyLeft, WRef "traces_info", Some (LOp OEq [Id "traces.trace_id"; Id "traces_info.trace_id"]))]
          None
          (Some (LOp OAnd [InE (Id "traces.trace_id") [WRef "trace_ids"];
-                          InE (Tuple [Id "traces.trace_id"; Id "traces.span_id"]) [WRef "trace_span_ids"]]))
+                          InE (Tuple [Id "traces.trace_id"; Id "traces.span_id"]) [WRef "trace_span_ids"];
+                          LOp OGe [Id "traces.timestamp_ns"; IntV (from_ns c)];
+                          LOp OLt [Id "traces.timestamp_ns"; IntV (to_ns c)]]))
          None [Id "traces.trace_id"] [Ord (Id "start_time_unix_nano") true] None).
 
 (* ---------------------------------------------------------------- planner.plan() *)
